@@ -36,9 +36,20 @@ def status_call(x):
     while isinstance(x, dict) and x['k'] == 'ctor' and len(x['args']) == 1 and is_status_type(x['t']) and \
             is_status_type(ir.strip(x['args'][0]).get('t', '')):
         x = ir.strip(x['args'][0])   # Status<void>{Status<void>} conversions
-    if isinstance(x, dict) and x['k'] == 'call' and byvalue_status(x.get('t')):
+    if is_status_producing(x):
         return x
     return None
+
+
+def is_status_producing(x):
+    """call expression whose callee returns nop::Status/Result<ErrorStatus,..> BY VALUE"""
+    if not (isinstance(x, dict) and x['k'] == 'call'):
+        return False
+    cal = x.get('callee')
+    ret = cal.get('ret') if cal else None
+    if ret is not None:
+        return byvalue_status(ret)
+    return byvalue_status(x.get('t'))
 
 
 def status_var(x):
@@ -115,7 +126,7 @@ class Interp:
         or nested (SD1); value accesses of status locals need state Ok"""
         for y in ir.walk(e):
             if y.get('k') == 'call':
-                if byvalue_status(y.get('t')) and not any(y is a for a in allowed):
+                if is_status_producing(y) and not any(y is a for a in allowed):
                     cal = y.get('callee') or {}
                     # members of Result/Status themselves (get/take/error on a local) are not I/O
                     if cal.get('rect') in ('nop::Result', 'nop::Status'):
